@@ -120,6 +120,25 @@ func replayFetchCheckout(c *core.Ctx, lfsBin string, b *behaviour, idx int) (*co
 			}
 		case "dropb":
 			os.Remove(gitenv.LocalObjectPath(gitDirB, w.Hex(s.str("oid"))))
+		case "toreference":
+			// a repository next door whose object directory B's alternates file names; its lfs/objects is
+			// the reference store
+			refGit := filepath.Join(root, "reference.git")
+			if _, err := os.Stat(refGit); err != nil {
+				if r := w.Env.Git(root, "init", "-q", "--bare", refGit); !r.OK() {
+					return nil, fmt.Errorf("init reference: %s", r.All())
+				}
+				os.MkdirAll(filepath.Join(gitDirB, "objects", "info"), 0o755)
+				if err := os.WriteFile(filepath.Join(gitDirB, "objects", "info", "alternates"), []byte(filepath.Join(refGit, "objects")+"\n"), 0o644); err != nil {
+					return nil, err
+				}
+			}
+			src := gitenv.LocalObjectPath(gitDirB, w.Hex(s.str("oid")))
+			dst := gitenv.LocalObjectPath(refGit, w.Hex(s.str("oid")))
+			os.MkdirAll(filepath.Dir(dst), 0o755)
+			if err := os.Rename(src, dst); err != nil {
+				return nil, fmt.Errorf("toreference: %v", err)
+			}
 		case "fetch", "pull", "checkout":
 			tree := map[string]string{}
 			if m, ok := s["tree"].(map[string]interface{}); ok {
@@ -312,7 +331,7 @@ func init() {
 				switch s.str("a") {
 				case "perturb":
 					feat = append(feat, "pt:"+s.str("kind"))
-				case "dropb", "serverloses":
+				case "dropb", "serverloses", "toreference":
 					feat = append(feat, s.str("a"))
 				case "clone":
 					feat = append(feat, fmt.Sprintf("skip=%v", s["skip"]))
@@ -336,16 +355,32 @@ func init() {
 		}); err != nil {
 			c.Infra("read behaviours: %v", err)
 		}
-		requireActions(c, "commit", "publish", "clone", "perturb", "dropb", "serverloses", "fetch", "pull", "checkout")
+		requireActions(c, "commit", "publish", "clone", "perturb", "dropb", "toreference", "serverloses", "fetch", "pull", "checkout")
 		keys := []string{}
 		for k := range byClass {
 			keys = append(keys, k)
 		}
 		sort.Slice(keys, func(i, j int) bool { return fnvStr(keys[i], c.Seed) < fnvStr(keys[j], c.Seed) })
 		var bs []*behaviour
+		// classes in which an object sits in the reference store only take up to a quarter of the budget first
+		taken := map[string]bool{}
+		for _, k := range keys {
+			if len(bs) >= budget/4 {
+				break
+			}
+			if strings.Contains(k, "toreference") {
+				l := byClass[k]
+				sort.Slice(l, func(i, j int) bool { return l[i].hash < l[j].hash })
+				bs = append(bs, l[0])
+				taken[k] = true
+			}
+		}
 		for _, k := range keys {
 			if len(bs) >= budget {
 				break
+			}
+			if taken[k] {
+				continue
 			}
 			l := byClass[k]
 			sort.Slice(l, func(i, j int) bool { return l[i].hash < l[j].hash })
@@ -362,6 +397,6 @@ func init() {
 		for i := 0; i < len(bs); i += len(bs)/4 + 1 {
 			c.Sample(json.RawMessage(bs[i].raw))
 		}
-		c.Assume("include / exclude sets are spelled as exact path lists (given by -I/-X or by lfs.fetchinclude/lfs.fetchexclude, optionally padded with a pattern matching nothing); the command is run from the root or an untracked sub-directory, by physical path or through a symlink; glob patterns, reference stores, read-only files and `git checkout` driving the filters are not yet in the model; the second clone is made from the bare remote with lfs.url pointing at the fake server")
+		c.Assume("include / exclude sets are spelled as exact path lists (given by -I/-X or by lfs.fetchinclude/lfs.fetchexclude, optionally padded with a pattern matching nothing); the command is run from the root or an untracked sub-directory, by physical path or through a symlink; a reference store named by B's alternates file holds objects moved out of B's own store; glob patterns, read-only files and `git checkout` driving the filters are not yet in the model; the second clone is made from the bare remote with lfs.url pointing at the fake server")
 	}
 }
